@@ -40,7 +40,7 @@ Verdict(x) ==
         \A i \in 1..Min(Len(backs), nA) :
            LET k == Consecutive(att, i)
                u == x.hist[i].draw
-               lim == Min(x.w.max - x.w.min, 2 ^ k)
+               lim == IF k >= 30 THEN x.w.max - x.w.min ELSE Min(x.w.max - x.w.min, 2 ^ k)   \* (max - min < 2^30)
            IN EqQ(backs[i].delay, <<x.w.min * u[2] + u[1] * lim, u[2]>>)>>,
     <<"ended_without_exit_event", ~stopped \/ (waits # <<>> /\ waits[Len(waits)].ret)>>,
     <<"continued_after_exit_event", \A i \in 1..(Len(waits) - 1) : ~waits[i].ret>>,
